@@ -141,7 +141,7 @@ def prove(pc, hyp, goal, timeout_s=10, logic=None, portfolio=False, fresh=True, 
 def _uvars(e, memo):
     """names of the uninterpreted constants in e"""
     k = e.get_id()
-    if k in memo: return memo[k][1]
+    if k in memo and memo[k][0].eq(e): return memo[k][1]
     out = set(); stack = [e]; seen = set()
     while stack:
         x = stack.pop(); i = x.get_id()
@@ -155,8 +155,13 @@ def _uvars(e, memo):
     return out
 
 
+_UV_MEMO = {}
+
+
 def _slice(hyps, goal):
-    memo = {}
+    if z3.is_false(goal) or z3.is_true(goal): return list(hyps), []
+    memo = _UV_MEMO       # hypotheses are shared by all obligations of a path: their variable sets are computed once
+    if len(memo) > 50000: memo.clear()
     cone = set(_uvars(goal, memo)); items = [(h, _uvars(h, memo)) for h in hyps]
     rel = []; changed = True; pending = items
     while changed:
